@@ -131,7 +131,8 @@ def run_property(pid, tier, seed, args):
         ent = {"function": r["function"], "file": (r.get("info") or {}).get("file", r["file"]),
                "sha256": (r.get("info") or {}).get("sha256"), "lines": (r.get("info") or {}).get("lines"),
                "obligations": len(r["obligations"]), "discharged": nd, "paths": r.get("paths"),
-               "precondition_satisfiable": r.get("sat_pre"), "engine": r.get("engine", "E1-cvc")}
+               "precondition_satisfiable": r.get("sat_pre"), "engine": r.get("engine", "E1-cvc"),
+               "wall_s": round(r.get("wall_s", 0), 1), "second_look": bool(r.get("second_look"))}
         fuc.append(ent)
 
     # --- failed obligations: replay, known findings ---------------------------------------
